@@ -265,6 +265,8 @@ func (e *Env) Run(idx int, c *Case) []Mismatch {
 			return nil // already reported by the QueryIds path
 		}
 		judge("QueryIdsC", guard(func() ([]string, int64, error) { return st.QueryIdsC(tx, q) }), c.Ids, c.Count, true, true, "C01")
+		// a parsed query is a value: running it must not consume it (the same object once more gives the same answer)
+		judge("QueryIdsC-again", guard(func() ([]string, int64, error) { return st.QueryIdsC(tx, q) }), c.Ids, c.Count, true, true, "C01")
 		q2, _ := ast.Parse(st, text)
 		if eb := st.GetEntitiesBucket(tx); eb != nil { // (no entities bucket in a store nothing was ever written to)
 			judge("QueryWithCursorC", guard(func() ([]string, int64, error) {
